@@ -37,7 +37,7 @@ def run_suite(ctx, pid, which, n_quick, n_thorough):
                     coracles.c08(res, r, True)
                 if 'c09' in which:
                     coracles.c09(res, r)
-                    coracles.c09_silence(res, r, 0, 0)
+                    coracles.c09_silence(res, r)
             except Exception as e:
                 res.errors.append('history crashed the harness on %s: %s %s' % (kind, type(e).__name__, str(e)[:300]))
             finally:
